@@ -19,6 +19,7 @@ import (
 
 	"github.com/samber/lo"
 
+	"github.com/fatedier/frp/pkg/config"
 	v1 "github.com/fatedier/frp/pkg/config/v1"
 	"github.com/fatedier/frp/pkg/msg"
 	"github.com/fatedier/frp/pkg/util/util"
@@ -42,6 +43,7 @@ type WCase struct {
 	LoseTLS    bool   `json:"lose_tls_files"` // fault: the client's trusted-CA file disappears after start-up, then every connection is cut
 	TCPMux     bool   `json:"tcpmux"`
 	KB         int    `json:"kb"` // payload size per direction
+	Source     string `json:"source,omitempty"` // how frpc gets its configuration: "" = structures, "toml" / "ini" = a file of that format through the real loader
 }
 
 func genW(t *rapid.T) WCase {
@@ -58,6 +60,7 @@ func genW(t *rapid.T) WCase {
 	if c.TLS && (c.Transport == "tcp" || c.Transport == "websocket") {
 		c.LoseTLS = rapid.IntRange(0, 3).Draw(t, "losetls") == 0
 	}
+	c.Source = rapid.SampledFrom([]string{"", "", "toml", "ini"}).Draw(t, "source")
 	return c
 }
 
@@ -180,7 +183,28 @@ func runW(c WCase) error {
 	vis := &v1.STCPVisitorConfig{}
 	vis.Name, vis.Type, vis.ServerName, vis.SecretKey, vis.BindAddr, vis.BindPort = "vis", "stcp", pname+"-stcp", sk, "127.0.0.1", s.Block.Port(fx.SlotExtra+1)
 	vis.Transport.UseEncryption, vis.Transport.UseCompression = c.Enc, c.Comp
-	cl, err := fx.StartClient(common, []v1.ProxyConfigurer{tp, hp, mp, sp}, []v1.VisitorConfigurer{vis})
+	pxys, viss := []v1.ProxyConfigurer{tp, hp, mp, sp}, []v1.VisitorConfigurer{vis}
+	if c.Source != "" {
+		// the same configuration written down as a user would, and read back by frp's own loader
+		dir, e := os.MkdirTemp("", "frp-verif-c05cfg")
+		if e != nil {
+			return fx.Inconclusive("%v", e)
+		}
+		defer os.RemoveAll(dir)
+		path := filepath.Join(dir, "frpc."+c.Source)
+		if e := os.WriteFile(path, []byte(renderClientFile(c.Source, common, tp, hp, mp, sp, vis)), 0o600); e != nil {
+			return fx.Inconclusive("%v", e)
+		}
+		lc, lp, lv, _, e := config.LoadClientConfig(path, false)
+		if e != nil {
+			return fmt.Errorf("frp's loader refuses the %s rendering of the configuration: %v", c.Source, e)
+		}
+		if len(lp) != 4 || len(lv) != 1 {
+			return fmt.Errorf("frp's loader found %d proxies and %d visitors in a %s file with 4 proxies and 1 visitor", len(lp), len(lv), c.Source)
+		}
+		common, pxys, viss = lc, lp, lv
+	}
+	cl, err := fx.StartClient(common, pxys, viss)
 	if err != nil {
 		return fx.Inconclusive("client: %v", err)
 	}
@@ -256,6 +280,45 @@ func runW(c WCase) error {
 	return nil
 }
 
+// renderClientFile writes the configuration of a wire case as a TOML document or as a legacy INI file.
+func renderClientFile(format string, c *v1.ClientCommonConfig, tp *v1.TCPProxyConfig, hp *v1.HTTPProxyConfig, mp *v1.TCPMuxProxyConfig, sp *v1.STCPProxyConfig, vis *v1.STCPVisitorConfig) string {
+	var b strings.Builder
+	tls, first, mux := lo.FromPtr(c.Transport.TLS.Enable), lo.FromPtr(c.Transport.TLS.DisableCustomTLSFirstByte), lo.FromPtr(c.Transport.TCPMux)
+	if format == "toml" {
+		fmt.Fprintf(&b, "serverAddr = %q\nserverPort = %d\nloginFailExit = false\nauth.token = %q\nlog.level = \"error\"\n", c.ServerAddr, c.ServerPort, c.Auth.Token)
+		fmt.Fprintf(&b, "transport.protocol = %q\ntransport.tcpMux = %v\ntransport.dialServerTimeout = 5\ntransport.tls.enable = %v\ntransport.tls.disableCustomTLSFirstByte = %v\n", c.Transport.Protocol, mux, tls, first)
+		if c.Transport.TLS.TrustedCaFile != "" {
+			fmt.Fprintf(&b, "transport.tls.trustedCaFile = %q\ntransport.tls.serverName = %q\n", c.Transport.TLS.TrustedCaFile, c.Transport.TLS.ServerName)
+		}
+		fmt.Fprintf(&b, "[metadatas]\nm = %q\n", c.Metadatas["m"])
+		fmt.Fprintf(&b, "[[proxies]]\nname = %q\ntype = \"tcp\"\nlocalIP = \"127.0.0.1\"\nlocalPort = %d\nremotePort = %d\ntransport.useEncryption = %v\ntransport.useCompression = %v\nmetadatas.k = %q\n",
+			tp.Name, tp.LocalPort, tp.RemotePort, tp.Transport.UseEncryption, tp.Transport.UseCompression, tp.Metadatas["k"])
+		fmt.Fprintf(&b, "[[proxies]]\nname = %q\ntype = \"http\"\nlocalIP = \"127.0.0.1\"\nlocalPort = %d\ncustomDomains = [%q]\nhttpUser = %q\nhttpPassword = %q\n",
+			hp.Name, hp.LocalPort, hp.CustomDomains[0], hp.HTTPUser, hp.HTTPPassword)
+		fmt.Fprintf(&b, "[[proxies]]\nname = %q\ntype = \"tcpmux\"\nmultiplexer = \"httpconnect\"\nlocalIP = \"127.0.0.1\"\nlocalPort = %d\ncustomDomains = [%q]\nhttpUser = %q\nhttpPassword = %q\n",
+			mp.Name, mp.LocalPort, mp.CustomDomains[0], mp.HTTPUser, mp.HTTPPassword)
+		fmt.Fprintf(&b, "[[proxies]]\nname = %q\ntype = \"stcp\"\nlocalIP = \"127.0.0.1\"\nlocalPort = %d\nsecretKey = %q\ntransport.useEncryption = %v\ntransport.useCompression = %v\n",
+			sp.Name, sp.LocalPort, sp.Secretkey, sp.Transport.UseEncryption, sp.Transport.UseCompression)
+		fmt.Fprintf(&b, "[[visitors]]\nname = %q\ntype = \"stcp\"\nserverName = %q\nsecretKey = %q\nbindAddr = \"127.0.0.1\"\nbindPort = %d\ntransport.useEncryption = %v\ntransport.useCompression = %v\n",
+			vis.Name, vis.ServerName, vis.SecretKey, vis.BindPort, vis.Transport.UseEncryption, vis.Transport.UseCompression)
+		return b.String()
+	}
+	fmt.Fprintf(&b, "[common]\nserver_addr = %s\nserver_port = %d\nlogin_fail_exit = false\ntoken = %s\nlog_level = error\n", c.ServerAddr, c.ServerPort, c.Auth.Token)
+	fmt.Fprintf(&b, "protocol = %s\ntcp_mux = %v\ndial_server_timeout = 5\ntls_enable = %v\ndisable_custom_tls_first_byte = %v\n", c.Transport.Protocol, mux, tls, first)
+	if c.Transport.TLS.TrustedCaFile != "" {
+		fmt.Fprintf(&b, "tls_trusted_ca_file = %s\ntls_server_name = %s\n", c.Transport.TLS.TrustedCaFile, c.Transport.TLS.ServerName)
+	}
+	fmt.Fprintf(&b, "meta_m = %s\n", c.Metadatas["m"])
+	fmt.Fprintf(&b, "[%s]\ntype = tcp\nlocal_ip = 127.0.0.1\nlocal_port = %d\nremote_port = %d\nuse_encryption = %v\nuse_compression = %v\nmeta_k = %s\n",
+		tp.Name, tp.LocalPort, tp.RemotePort, tp.Transport.UseEncryption, tp.Transport.UseCompression, tp.Metadatas["k"])
+	fmt.Fprintf(&b, "[%s]\ntype = http\nlocal_ip = 127.0.0.1\nlocal_port = %d\ncustom_domains = %s\nhttp_user = %s\nhttp_pwd = %s\n", hp.Name, hp.LocalPort, hp.CustomDomains[0], hp.HTTPUser, hp.HTTPPassword)
+	fmt.Fprintf(&b, "[%s]\ntype = tcpmux\nmultiplexer = httpconnect\nlocal_ip = 127.0.0.1\nlocal_port = %d\ncustom_domains = %s\nhttp_user = %s\nhttp_pwd = %s\n", mp.Name, mp.LocalPort, mp.CustomDomains[0], mp.HTTPUser, mp.HTTPPassword)
+	fmt.Fprintf(&b, "[%s]\ntype = stcp\nlocal_ip = 127.0.0.1\nlocal_port = %d\nsk = %s\nuse_encryption = %v\nuse_compression = %v\n", sp.Name, sp.LocalPort, sp.Secretkey, sp.Transport.UseEncryption, sp.Transport.UseCompression)
+	fmt.Fprintf(&b, "[%s]\nrole = visitor\ntype = stcp\nserver_name = %s\nsk = %s\nbind_addr = 127.0.0.1\nbind_port = %d\nuse_encryption = %v\nuse_compression = %v\n",
+		vis.Name, vis.ServerName, vis.SecretKey, vis.BindPort, vis.Transport.UseEncryption, vis.Transport.UseCompression)
+	return b.String()
+}
+
 func TestWireConfidentiality(t *testing.T) {
 	fx.Prelease(3)
 	fx.Run(t, fx.Spec[WCase]{Prop: "C05", Name: "wire_confidentiality", Quick: 160, Thorough: 5000, Gen: genW, Run: runW, ShrinkTime: "40s",
@@ -273,6 +336,7 @@ type ICase struct {
 	Listener   string `json:"listener"`    // server side: tcp (hand-made peer) | websocket | kcp | quic (frp's own connector as the peer)
 	Force      bool   `json:"force"`       // server forces TLS
 	ServerCA   bool   `json:"server_ca"`   // server has a trusted CA (=> mutual TLS)
+	GenCert    bool   `json:"gen_cert"`    // server has no certFile / keyFile of its own: it generates a certificate at start
 	PeerTLS    bool   `json:"peer_tls"`    // the connecting peer uses TLS
 	PeerCert   string `json:"peer_cert"`   // none | good | foreign | self
 	FirstByte  int    `json:"first_byte"`  // non-TLS peer: first byte sent before a well-formed plaintext login (-1 = none extra)
@@ -286,6 +350,7 @@ func genI(t *rapid.T) ICase {
 	if c.Side == "server" {
 		c.Force = rapid.Bool().Draw(t, "force")
 		c.ServerCA = rapid.Bool().Draw(t, "serverca")
+		c.GenCert = rapid.Bool().Draw(t, "gencert")
 		c.PeerTLS = rapid.Bool().Draw(t, "peertls")
 		c.PeerCert = rapid.SampledFrom([]string{"none", "good", "foreign", "self"}).Draw(t, "peercert")
 		c.FirstByte = rapid.IntRange(-1, 255).Draw(t, "firstbyte")
@@ -306,7 +371,7 @@ func genI(t *rapid.T) ICase {
 
 func judgeServer(c ICase, s *fx.Server, base *fx.Snapshot, mustRefuse, gotResp bool, resp msg.LoginResp) error {
 	accepted := gotResp && resp.Error == "" && resp.RunID != ""
-	desc := fmt.Sprintf("server force=%v trustedCA=%v; listener=%s peer tls=%v cert=%s firstByte=%d", c.Force, c.ServerCA, c.Listener, c.PeerTLS, c.PeerCert, c.FirstByte)
+	desc := fmt.Sprintf("server force=%v trustedCA=%v generatedCert=%v; listener=%s peer tls=%v cert=%s firstByte=%d", c.Force, c.ServerCA, c.GenCert, c.Listener, c.PeerTLS, c.PeerCert, c.FirstByte)
 	if mustRefuse {
 		if gotResp {
 			return fmt.Errorf("%s: the peer must not get any protocol message interpreted, but it received a LoginResp (error=%q run_id=%q)", desc, resp.Error, resp.RunID)
@@ -330,6 +395,9 @@ func runI(c ICase) error {
 			sc.Transport.TLS.Force = c.Force
 			if c.ServerCA {
 				sc.Transport.TLS.TrustedCaFile = certs.CA
+			}
+			if c.GenCert {
+				sc.Transport.TLS.CertFile, sc.Transport.TLS.KeyFile = "", ""
 			}
 		}))
 		if err != nil {
